@@ -96,9 +96,9 @@ PROPS = {
                 technique='exact (<=>) and per-conjunct postconditions on LayoutTrait::validate_public_input / verify_public_input of each layout, field-division lemma lemma_builtin_checked; per-layout oracles generated from the layout constants (vf/gen_layout_mid.py)',
                 note='The dynamic layout (builtin table given by proof-supplied dynamic parameters, 790 lines) is NOT under contract: a change there is not seen. The iterator chains of verify_public_input enter through hoisting rules (A-iter).'),
     'C15': dict(quick=['core'], thorough=['core'],
-                claim='Page::get_product, get_continuous_pages_product, get_public_memory_product(_ratio) are proved equal to their defining products/quotient; get_diluted_product is proved equal to the doubling recurrence (p,q,x,diff_x) after n_bits-1 steps and to terminate.',
-                technique='loop invariants on Page::get_product, get_continuous_pages_product, get_diluted_product; functional postconditions on the memory product functions',
-                note='The equality doubling-recurrence == defining recurrence r_{j+1}=r_j(1+z u_j)+alpha u_j^2 over 2^n_bits values is NOT mechanised (algebra-heavy lemma, see DESIGN.md); the in-function assert! and the two field divisions are C18 obligations of the callers.'),
+                claim='get_diluted_product is proved (i) to compute the log-step doubling recurrence (p,q,x,diff_x) after n_bits-1 steps and to terminate, and (ii) by a machine-checked lemma chain to equal r_(2^n_bits) of the DEFINING recurrence r_1 = 1, r_(j+1) = r_j*(1+z*u_j) + alpha*u_j^2 over all 2^n_bits diluted values (u_j = Dilute(j) - Dilute(j-1), digit weight 2^spacing), for every n_bits in 1..=64, spacing, z, alpha: integer identity for every base (periodicity of u, block composition), then reduction mod P. Page::get_product, get_continuous_pages_product, get_public_memory_product(_ratio) are proved equal to z^size / (product over all public cells of (z - (addr + alpha*value)), page products for continuous pages, times the padding factor to the power size - total).',
+                technique='loop invariants on Page::get_product, get_continuous_pages_product, get_diluted_product; functional postconditions on the memory product functions; verified lemmas lemma_dil_shift, lemma_u_periodic, lemma_block, lemma_diluted_doubling, lemma_state, lemma_diluted_is_recurrence (templates/air/diluted_lemma.rs)',
+                note='The in-function assert! (total length <= column size) and the two field divisions are C18 obligations of the callers (one known finding). n_bits > 64 is outside the contract (every layout passes the constant 16).'),
     'C08': dict(quick=['core'], thorough=['core'],
                 claim='Every Transcript operation is proved equal to a spec of the absorb/squeeze state machine (squeeze = poseidon(digest,counter), counter+1; absorb = poseidon_many([digest+1]++msg), counter reset); protocol functions are proved to perform exactly the scripted operations in order.',
                 technique='postconditions over the transcript state machine on Transcript::*, pow commit, generate_queries',
